@@ -272,12 +272,16 @@ func main() {
 	kd, _ := json.Marshal(known)
 	os.WriteFile(knownPath, kd, 0o644)
 
-	type wres struct {
+	type part struct {
 		sum  map[string]any
 		raw  []byte
-		log  string
 		sigs []uint64
-		err  error
+	}
+
+	type wres struct {
+		parts []part
+		log   string
+		err   error
 	}
 
 	results := make([]wres, nw)
@@ -292,67 +296,95 @@ func main() {
 		go func(w int) {
 			defer wg.Done()
 
-			out := filepath.Join(scratch, fmt.Sprintf("w%d.json", w))
-			env := workerEnv(
-				"SIM_MODE=run", "SIM_PROP="+id,
-				fmt.Sprintf("VERIF_SEED=%d", seed),
-				fmt.Sprintf("SIM_FROM=%d", w), fmt.Sprintf("SIM_STRIDE=%d", nw), fmt.Sprintf("SIM_TO=%d", tc.Runs),
-				fmt.Sprintf("SIM_WALL_S=%d", tc.WallS), "SIM_OUT="+out, "SIM_KNOWN="+knownPath, "SIM_TIER="+*tier,
-			)
+			deadline := time.Now().Add(time.Duration(tc.WallS) * time.Second)
+			from := int64(w)
 
-			if *engine != "" {
-				env = append(env, "SIM_ENGINE="+*engine)
-			}
+			// a worker process ends early when its memory has grown (abandoned runs leave
+			// parked goroutines behind); a fresh one continues where it stopped
+			for gen := 0; ; gen++ {
+				out := filepath.Join(scratch, fmt.Sprintf("w%d.%d.json", w, gen))
+				left := int64(time.Until(deadline).Seconds())
 
-			if *digestOut != "" {
-				env = append(env, fmt.Sprintf("SIM_HASHES=%s.w%d", *digestOut, w))
-			}
-
-			cmd := exec.Command(bin, "-test.run", "TestSim", "-test.timeout", "0")
-			cmd.Dir = scratch
-			cmd.Env = env
-
-			var buf bytes.Buffer
-			cmd.Stdout = &buf
-			cmd.Stderr = &buf
-
-			if err := cmd.Start(); err != nil {
-				results[w].err = err
-				return
-			}
-
-			done := make(chan error, 1)
-			go func() { done <- cmd.Wait() }()
-
-			select {
-			case <-done:
-			case <-time.After(watchdog):
-				cmd.Process.Kill()
-				<-done
-				results[w].err = fmt.Errorf("watchdog: worker %d did not finish within %v", w, watchdog)
-			}
-
-			results[w].log = buf.String()
-
-			data, err := os.ReadFile(out)
-			if err != nil {
-				if results[w].err == nil {
-					results[w].err = fmt.Errorf("worker %d wrote no summary", w)
+				if left < 1 {
+					left = 1
 				}
 
-				return
-			}
+				env := workerEnv(
+					"SIM_MODE=run", "SIM_PROP="+id,
+					fmt.Sprintf("VERIF_SEED=%d", seed),
+					fmt.Sprintf("SIM_FROM=%d", from), fmt.Sprintf("SIM_STRIDE=%d", nw), fmt.Sprintf("SIM_TO=%d", tc.Runs),
+					fmt.Sprintf("SIM_WALL_S=%d", left), "SIM_OUT="+out, "SIM_KNOWN="+knownPath, "SIM_TIER="+*tier,
+				)
 
-			results[w].raw = data
+				if *engine != "" {
+					env = append(env, "SIM_ENGINE="+*engine)
+				}
 
-			if err := json.Unmarshal(data, &results[w].sum); err != nil {
-				results[w].err = err
-				return
-			}
+				if *digestOut != "" {
+					env = append(env, fmt.Sprintf("SIM_HASHES=%s.w%d.%d", *digestOut, w, gen))
+				}
 
-			sb, _ := os.ReadFile(out + ".sigs")
-			for i := 0; i+8 <= len(sb); i += 8 {
-				results[w].sigs = append(results[w].sigs, binary.LittleEndian.Uint64(sb[i:]))
+				cmd := exec.Command(bin, "-test.run", "TestSim", "-test.timeout", "0")
+				cmd.Dir = scratch
+				cmd.Env = env
+
+				var buf bytes.Buffer
+				cmd.Stdout = &buf
+				cmd.Stderr = &buf
+
+				if err := cmd.Start(); err != nil {
+					results[w].err = err
+					return
+				}
+
+				done := make(chan error, 1)
+				go func() { done <- cmd.Wait() }()
+
+				select {
+				case <-done:
+				case <-time.After(watchdog):
+					cmd.Process.Kill()
+					<-done
+					results[w].err = fmt.Errorf("watchdog: worker %d did not finish within %v", w, watchdog)
+				}
+
+				results[w].log += buf.String()
+
+				data, err := os.ReadFile(out)
+				if err != nil {
+					if results[w].err == nil {
+						results[w].err = fmt.Errorf("worker %d wrote no summary", w)
+					}
+
+					return
+				}
+
+				var sum map[string]any
+
+				if err := json.Unmarshal(data, &sum); err != nil {
+					results[w].err = err
+					return
+				}
+
+				var sigs []uint64
+
+				sb, _ := os.ReadFile(out + ".sigs")
+				for i := 0; i+8 <= len(sb); i += 8 {
+					sigs = append(sigs, binary.LittleEndian.Uint64(sb[i:]))
+				}
+
+				results[w].parts = append(results[w].parts, part{sum, data, sigs})
+
+				if results[w].err != nil {
+					return
+				}
+
+				rec, _ := sum["recycled"].(bool)
+				if !rec || sum["failure"] != nil || time.Now().After(deadline) {
+					return
+				}
+
+				from = int64(num(sum["next"]))
 			}
 		}(w)
 	}
@@ -375,29 +407,31 @@ func main() {
 		digests      []string
 	)
 
-	for _, r := range results {
-		agg.add(r.sum, r.sigs)
+	for _, wr := range results {
+		for _, r := range wr.parts {
+			agg.add(r.sum, r.sigs)
 
-		if f, ok := r.sum["failure"].(map[string]any); ok && f != nil {
-			// keep the worker's own bytes: decoding into float64 would round the 64-bit
-			// PCT seed and the minimiser would replay a different schedule
-			var exact struct {
-				Failure json.RawMessage `json:"failure"`
+			if f, ok := r.sum["failure"].(map[string]any); ok && f != nil {
+				// keep the worker's own bytes: decoding into float64 would round the 64-bit
+				// PCT seed and the minimiser would replay a different schedule
+				var exact struct {
+					Failure json.RawMessage `json:"failure"`
+				}
+
+				json.Unmarshal(r.raw, &exact)
+				f["_raw"] = string(exact.Failure)
+				f["_log"] = wr.log
+				failures = append(failures, f)
 			}
 
-			json.Unmarshal(r.raw, &exact)
-			f["_raw"] = string(exact.Failure)
-			f["_log"] = r.log
-			failures = append(failures, f)
-		}
-
-		if inc, ok := r.sum["inconclusive"].([]any); ok {
-			for _, x := range inc {
-				inconclusive = append(inconclusive, fmt.Sprint(x))
+			if inc, ok := r.sum["inconclusive"].([]any); ok {
+				for _, x := range inc {
+					inconclusive = append(inconclusive, fmt.Sprint(x))
+				}
 			}
-		}
 
-		digests = append(digests, fmt.Sprintf("%v %v", r.sum["runs"], r.sum["digest"]))
+			digests = append(digests, fmt.Sprintf("%v %v", r.sum["runs"], r.sum["digest"]))
+		}
 	}
 
 	_ = digests
